@@ -1022,6 +1022,13 @@ def refresh(
             watermark_column = None
             if mode in ["incremental", "merge"] and preagg_obj.time_dimension and preagg_obj.granularity:
                 watermark_column = f"{preagg_obj.time_dimension}_{preagg_obj.granularity}"
+                # Restrict the source to the refresh window; without a {WATERMARK} predicate every run
+                # re-inserted the whole materialization. Merge deletes ">= watermark", so it reloads ">=".
+                watermark_op = ">=" if mode == "merge" else ">"
+                source_sql = (
+                    f"SELECT * FROM ({source_sql}) AS preagg_source "
+                    f"WHERE {watermark_column} {watermark_op} {{WATERMARK}}"
+                )
 
             # Refresh
             typer.echo(f"Refreshing {model_name}.{preagg_obj.name} ({mode})...", err=True)
